@@ -18,9 +18,14 @@ DEC_BOUNDS = {"all": {"mul_abstract": 1, "dec_coeff_form": 1},
 STEP_BOUNDS = {"all": {"round_abstract": 1},
                "quick": {"list": 1, "iter": 1, "exp_lo": -12, "exp_hi": 12, "digits": 45},
                "thorough": {"list": 2, "iter": 2, "exp_lo": -12, "exp_hi": 12, "digits": 45}}
+# basket thorough: two credits per Put; Take stays at one drained balance plus one partial
+# (iter=2 for Take did not finish within an hour and is not registered)
 BASKET_BOUNDS = {"all": {"round_abstract": 1, "dec_coeff_form": 1},
                  "quick": {"list": 1, "iter": 1, "exp_lo": -12, "exp_hi": 12, "digits": 45},
-                 "thorough": {"list": 2, "iter": 2, "exp_lo": -12, "exp_hi": 12, "digits": 45}}
+                 "thorough": {"list": 2, "iter": 1, "exp_lo": -12, "exp_hi": 12, "digits": 45}}
+BASKET_BOUNDS_L1 = {"all": {"round_abstract": 1, "dec_coeff_form": 1, "list": 1, "iter": 1, "exp_lo": -12, "exp_hi": 12, "digits": 45}}
+STEP_BOUNDS_L1 = {"all": {"round_abstract": 1, "list": 1, "iter": 1, "exp_lo": -12, "exp_hi": 12, "digits": 45}}
+BUYTWO_BOUNDS = {"all": {"round_abstract": 1, "list": 2, "iter": 1, "exp_lo": -12, "exp_hi": 12, "digits": 45}}
 
 # marketplace (without BuyDirect) is cheap enough for two orders / two expired orders per
 # message in the quick tier: duplicate ids inside one message are in range
@@ -68,8 +73,14 @@ def step_runs():
         {"module": "ecocredit", "pkg": "./base/keeper", "harness": QUICK_BASE_L2, "bounds": STEP_BOUNDS_L2, "tiers": ["quick"]},
         {"module": "ecocredit", "pkg": "./basket/keeper", "harness": "Step_.*", "bounds": BASKET_BOUNDS,
          "timeout_ms": {"quick": 20000, "thorough": 60000}},
-        {"module": "ecocredit", "pkg": "./marketplace/keeper", "harness": {"quick": QUICK_MARKET, "thorough": "Step_.*"},
-         "bounds": MARKET_BOUNDS},
+        # marketplace: everything but BuyDirect with two list elements / two iterator rows in both
+        # tiers; BuyDirect (20 minutes) with one entry, and with two entries in the fee-less,
+        # moderate-price configuration (BuyDirectTwo), in the thorough tier only
+        {"module": "ecocredit", "pkg": "./marketplace/keeper", "harness": QUICK_MARKET, "bounds": MARKET_BOUNDS},
+        {"module": "ecocredit", "pkg": "./marketplace/keeper", "harness": "Step_MarketBuyDirect", "bounds": STEP_BOUNDS_L1, "tiers": ["thorough"],
+         "budget_s": {"thorough": 5400}},
+        {"module": "ecocredit", "pkg": "./marketplace/keeper", "harness": "Step_MarketBuyDirectTwo", "bounds": BUYTWO_BOUNDS, "tiers": ["thorough"],
+         "budget_s": {"thorough": 5400}},
     ]
 
 
@@ -98,10 +109,12 @@ PROPS = {
     "C09": {"title": "genesis export/validate/re-import (kernel: state validators are handler invariants)", "runs": step_runs(),
             "technique": STEP_TECH + "; the real Validate() of each state type (merged to one formula) asserted on every written row"},
     "C10": {"title": "handler-level determinism and statelessness (self-composition)",
-            "runs": [{"module": "ecocredit", "pkg": "./base/keeper", "harness": "C10_.*", "bounds": STEP_BOUNDS},
-                     {"module": "ecocredit", "pkg": "./basket/keeper", "harness": "C10_.*", "bounds": BASKET_BOUNDS,
+            "runs": [{"module": "ecocredit", "pkg": "./base/keeper", "harness": "C10_.*", "bounds": STEP_BOUNDS_L1},
+                     {"module": "ecocredit", "pkg": "./basket/keeper", "harness": "C10_.*", "bounds": BASKET_BOUNDS_L1,
                       "timeout_ms": {"quick": 20000, "thorough": 60000}},
-                     {"module": "ecocredit", "pkg": "./marketplace/keeper", "harness": "C10_.*", "bounds": MARKET_BOUNDS},
+                     {"module": "ecocredit", "pkg": "./marketplace/keeper", "harness": "C10_" + QUICK_MARKET[len("Step_"):], "bounds": MARKET_BOUNDS},
+                     {"module": "ecocredit", "pkg": "./marketplace/keeper", "harness": "C10_MarketBuyDirect", "bounds": STEP_BOUNDS_L1, "tiers": ["thorough"],
+                      "budget_s": {"thorough": 7200}},
                      {"module": "data", "pkg": "./server", "harness": "C10_.*", "bounds": DATA_BOUNDS}],
             "technique": "self-composition by go/ssa symbolic execution: every handler is executed twice from the same arbitrary pre-state, request and block time with map iteration order and wall clock chosen independently; final table contents, coins, events, outcome and response are compared and writes to per-process memory are reported + SMT"},
     "C11": {"title": "basket admission, oldest first, auto-retire", "runs": step_runs(),
